@@ -23,6 +23,7 @@ type c19Case struct {
 	Bad     int     `json:"bad"`      // position of an un-normalisable element for the error path (-1: none)
 	BadKind int     `json:"bad_kind"` // 0: zero value (0,0,0), 1: valid X,Y with Z = 0
 	Pattern string  `json:"pattern"`
+	Tie     string  `json:"tie,omitempty"` // "Z" / "Y": representations chosen so that the product of that coordinate over the list is exactly 1; "Zm": -1
 }
 
 func genC19(t *rapid.T) c19Case {
@@ -51,6 +52,7 @@ func genC19(t *rapid.T) c19Case {
 			c.List = append(c.List, rapid.IntRange(0, 40).Draw(t, "idx"))
 		}
 	}
+	c.Tie = rapid.SampledFrom([]string{"", "", "", "Z", "Y", "Zm"}).Draw(t, "tie")
 	if n > 0 && rapid.IntRange(0, 2).Draw(t, "with_bad") == 0 {
 		c.Bad = rapid.IntRange(0, n-1).Draw(t, "bad")
 		c.BadKind = rapid.IntRange(0, 1).Draw(t, "bad_kind")
@@ -75,6 +77,16 @@ func evalC19(c c19Case, rec *hx.Rec) error {
 			objs[idx] = &e
 		}
 		list[i] = objs[idx]
+	}
+	if c.Tie != "" {
+		var target hx.FE
+		target.SetOne()
+		if c.Tie == "Zm" {
+			target.Neg(&target)
+		}
+		if hx.TieProduct(list, c.Tie[:1], target) {
+			rec.Label("tie:" + c.Tie)
+		}
 	}
 	before := make([]hx.RPt, len(list))
 	repeated, nonnorm := false, false
